@@ -104,6 +104,12 @@ type Ctx struct {
 	start    time.Time
 	hung     []hungCase
 	hangs    int
+	// KeyFilter, when set, decides which violation keys this property records; verdicts of reused
+	// scenario engines whose oracle belongs to another property are only counted (C10 runs engines
+	// for the race detector, not for their oracles).
+	KeyFilter func(key string) bool
+	// DistinctFilter, when set, selects the signatures that count for this property.
+	DistinctFilter func(sig string) bool
 }
 
 type hungCase struct {
@@ -133,6 +139,9 @@ func (c *Ctx) Eval(n int) { atomic.AddInt64(&c.evals, int64(n)) }
 // Distinct records the signature of a non-trivial case; the evidence's
 // distinct_nontrivial is the size of the union of these sets over shards.
 func (c *Ctx) Distinct(sig string) {
+	if c.DistinctFilter != nil && !c.DistinctFilter(sig) {
+		return
+	}
 	h := HashString(sig)
 	c.mu.Lock()
 	c.distinct[h] = struct{}{}
@@ -174,6 +183,10 @@ func (c *Ctx) SetExhaustive(b bool) {
 func (c *Ctx) Violation(key, caseID, what string, witness any) {
 	c.mu.Lock()
 	defer c.mu.Unlock()
+	if c.KeyFilter != nil && !c.KeyFilter(key) {
+		c.counters["foreign_oracle_verdicts_not_judged"]++
+		return
+	}
 	c.violKeys[key]++
 	if c.violKeys[key] > 3 {
 		return
@@ -220,6 +233,10 @@ type Case struct {
 // re-run at the end of the shard, when nothing else runs in this process;
 // only if the bound is exceeded again is it recorded as a violation.
 func (k *Case) TimeViol(key, what string, witness any) {
+	if k.Ctx.KeyFilter != nil && !k.Ctx.KeyFilter(key) {
+		k.Ctx.Count("foreign_oracle_verdicts_not_judged", 1)
+		return
+	}
 	if k.Second {
 		k.Viol(key, what+" (confirmed by a second run on an idle process)", witness)
 		return
